@@ -179,8 +179,13 @@ def pc_joint(df, on, df_2=None, gap_token='_'):
     """
     
     if df_2 is None:
-        return pc(df[on].apply(lambda x: gap_token.join(x.astype(str)), axis=1))
-    return pc(df[on].apply(lambda x: gap_token.join(x.astype(str)), axis=1), df_2[on].apply(lambda x: gap_token.join(x.astype(str)), axis=1))
+        return pc(_join_columns(df, on, gap_token))
+    return pc(_join_columns(df, on, gap_token), _join_columns(df_2, on, gap_token))
+
+
+def _join_columns(df, on, gap_token):
+    # missing cells count as one (empty) value, exactly as in pc
+    return df[on].fillna("").apply(lambda x: gap_token.join(str(val) for val in x), axis=1)
     
 def pc_grouped_cross(df, by, on):
     """Cross-group coincidence probability estimator
@@ -291,7 +296,7 @@ def stdpc(array):
 def stdpc_joint(df, on, gap_token = '_'):
     "Std.dev. estimator for joint Simpson's index"
 
-    return stdpc(df[on].apply(lambda x: gap_token.join(x.astype(str)), axis=1))
+    return stdpc(_join_columns(df, on, gap_token))
 
 def chao1(counts):
     """Estimate richness from sampled counts.
